@@ -35,6 +35,7 @@ type World struct {
 	consts   map[string]map[string]string // type string -> const exact value -> qualified short name
 	inline   map[*ssa.Function]*frame
 	invoked  map[string]bool
+	named    map[string]bool // names looked up as anchors (blind-spot census only)
 }
 
 func repoDir() string {
@@ -270,7 +271,13 @@ func (w *World) buildConsts() {
 func (w *World) ConstsOfType(tn string) map[string]string { return w.consts[tn] }
 
 // Fn returns the function with the given short name or nil.
-func (w *World) Fn(name string) *ssa.Function { return w.Funcs[name] }
+func (w *World) Fn(name string) *ssa.Function {
+	if w.named == nil {
+		w.named = map[string]bool{}
+	}
+	w.named[name] = true
+	return w.Funcs[name]
+}
 
 // Pos renders a position relative to the repository root.
 func (w *World) Pos(p token.Pos) string {
